@@ -70,6 +70,15 @@ CHECKS = {
             'open (true pair + erroring pair, short-circuit, mixed timezone presence) are counted as undecided.',
             'Trusted: rv/models/compare.py, libxml2; sequences homogeneous per side; implicit-timezone cases left to C11.',
             'DESIGN.md section 4 (C07)'),
+    'C08': ('exploration',
+            'runtime reference-model monitor: definitional F&O list model (typed mini-language evaluator) vs the engine on generated nested programs + engine-only equivalences',
+            'Generated programs (comma, to, predicates with position()/last(), for/some/every with several variables and shadowing, the '
+            'simple map operator, if, and the sequence/aggregate functions named in the property, nesting depth <= 4, boundary position / '
+            'length arguments) are evaluated by the engine (XPath 2.0 and 3.1) and by a typed list-model evaluator; value and dynamic type '
+            'are compared; the equivalences of the statement (every/some duality, subsequence vs positional predicate, ...) are checked '
+            'engine-against-engine.',
+            'Trusted: rv/models/minilang.py; outcomes the specification leaves open (nested errors, imprecise doubles) are undecided.',
+            'DESIGN.md section 4 (C08)'),
     'C09': ('exploration',
             'differential runtime monitor: F&O reference string model + libxml2 (XPath 1.0) + engine-only laws on generated Unicode strings',
             'Each generated call of the string functions named in the property (substring with .5/INF/NaN positions, translate, '
@@ -128,6 +137,15 @@ CHECKS = {
             'model, so an operand modified in place is seen on the very next step.',
             'Trusted: rv/models/maparray.py (F&O 3.1 section 17); order of map:keys/for-each results compared as bags; array:sort and collations left to C16.',
             'DESIGN.md section 4 (C15)'),
+    'C16': ('exploration',
+            'runtime reference-model monitor: programs over function items evaluated by a Python-closure model vs the engine, call-history templates, engine-only HOF/partial-application equivalences, sort permutation/order/stability monitor',
+            'Closure templates create several function items from ONE function expression under different bindings and call them later in random '
+            'order and multiplicity; random typed programs mix inline functions, named references, partial applications (every placeholder '
+            'pattern, chained) and the higher-order functions; each is evaluated by the engine (3.0/3.1, select and evaluate) and by a model whose '
+            'function items are Python closures over an explicit environment. f#n(args)=f(args), partial application, repeated calls and each HOF vs '
+            'its definitional expansion are compared engine-against-engine; fn:sort output must be a stable ordered permutation (indexed items).',
+            'Trusted: rv/models/funclang.py; only the codepoint collation (C locale); programs returning function items or arrays are undecided.',
+            'DESIGN.md section 4 (C16)'),
     'C17': ('exploration',
             'differential runtime monitor: round trips through the real serializers/parsers checked against Python json and an independent XDM deep-equal',
             'Generated JSON-representable XDM values are serialised and parsed back (deep-equal, value model, operand unchanged) and the '
